@@ -480,8 +480,45 @@ static value_t radius_spec(value_t t) { for (int i = 0; i < NPT; i++) if (i < g_
                   desc="ripser_auto without threshold (dense input): the threshold becomes min(threshold, min_i max_j dist(i, j)) - the enclosing radius beyond which the Rips complex is a cone"))
 
 
+def union_find_units(U):
+    """Union_find (dimension-0 pairs): find returns the representative and keeps the partition; link merges exactly
+    the two classes (forests of at most 5 nodes, bounded)"""
+    G = ND + """#define NV 5
+typedef int vertex_t;
+vertex_t parent[NV]; uint8_t rank[NV]; unsigned g_depth[NV]; int g_n, g_q, g_r0, g_rx, g_ry;
+static bool forest_ok(void) { bool ok = g_n >= 1 && g_n <= NV; for (int i = 0; i < NV; i++) if (i < g_n) ok = ok && parent[i] >= 0 && parent[i] < g_n && g_depth[i] < NV && (parent[i] == i ? g_depth[i] == 0 : g_depth[parent[i]] + 1 == g_depth[i]); return ok; }
+static int root_of(int v) { for (int s = 0; s < NV; s++) v = parent[v]; return v; }
+"""
+    c_find = """
+__CPROVER_requires(forest_ok() && x >= 0 && x < g_n && g_q >= 0 && g_q < g_n && g_r0 == root_of(g_q) && g_rx == root_of(x))
+__CPROVER_ensures(__CPROVER_return_value == g_rx && parent[g_rx] == g_rx)
+__CPROVER_ensures(root_of(g_q) == g_r0 && parent[g_q] >= 0 && parent[g_q] < g_n)
+__CPROVER_assigns(parent)
+"""
+    f_find = Fn(RP, r"vertex_t find\(vertex_t x\)", "uf_find", c_find, within=r"class Union_find \{", canary=(r"x = z;", "x = y; parent[x] = x;"))
+    fill = ("  g_n = nondet_int(); g_q = nondet_int(); int in_x = nondet_int(), in_y = nondet_int();\n  for (int i = 0; i < NV; i++) { parent[i] = nondet_int(); rank[i] = nondet_uchar(); g_depth[i] = nondet_uint(); }\n"
+            "  __CPROVER_assume(g_n >= 1 && g_n <= NV && g_q >= 0 && g_q < g_n && in_x >= 0 && in_x < g_n && in_y >= 0 && in_y < g_n);\n"
+            "  { bool ok = true; for (int i = 0; i < NV; i++) if (i < g_n) ok = ok && parent[i] >= 0 && parent[i] < g_n && g_depth[i] < NV && (parent[i] == i ? g_depth[i] == 0 : g_depth[parent[i]] + 1 == g_depth[i]); __CPROVER_assume(ok); }\n"
+            "  { int v = g_q; for (int s = 0; s < NV; s++) v = parent[v]; g_r0 = v; v = in_x; for (int s = 0; s < NV; s++) v = parent[v]; g_rx = v; v = in_y; for (int s = 0; s < NV; s++) v = parent[v]; g_ry = v; }")
+    U.append(Unit("union_find.find", "C11", [f_find], enforce="uf_find", globals_=G, unwind=8, route="B", bound="at most 5 vertices", inputs=["in_x", "g_n", "parent"],
+                  harness=H(fill, "uf_find(in_x);"), runs=[Run(backend="kissat", timeout=600)],
+                  desc="Union_find::find (path halving): returns the representative of x, every vertex keeps its representative"))
+    c_link = """
+__CPROVER_requires(forest_ok() && x >= 0 && x < g_n && y >= 0 && y < g_n && g_q >= 0 && g_q < g_n && g_r0 == root_of(g_q) && g_rx == root_of(x) && g_ry == root_of(y))
+__CPROVER_ensures(root_of(g_rx) == root_of(g_ry) && (root_of(g_rx) == g_rx || root_of(g_rx) == g_ry))
+__CPROVER_ensures((g_r0 == g_rx || g_r0 == g_ry) ? root_of(g_q) == root_of(g_rx) : root_of(g_q) == g_r0)
+__CPROVER_assigns(parent, rank)
+"""
+    f_find2 = Fn(RP, r"vertex_t find\(vertex_t x\)", "find", "", within=r"class Union_find \{")
+    f_link = Fn(RP, r"void link\(vertex_t x, vertex_t y\)", "uf_link", c_link, within=r"class Union_find \{", canary=(r"parent\[y\] = x;", "parent[y] = y;"))
+    U.append(Unit("union_find.link", "C11", [f_find2, f_link], enforce="uf_link", globals_=G, unwind=8, route="B", bound="at most 5 vertices", inputs=["in_x", "in_y", "g_n", "parent"],
+                  harness=H(fill, "uf_link(in_x, in_y);"), runs=[Run(backend="kissat", timeout=600)],
+                  desc="Union_find::link: afterwards x and y have the same representative (one of the two old ones) and every other class is untouched"))
+
+
 def units(tier):
     U = []
+    union_find_units(U)
     dispatcher_units(U)
     cns_table_units(U)
     cns_units(U)
